@@ -10,6 +10,7 @@ mod meta;
 mod oracle;
 mod rng;
 mod selftest;
+mod shrink;
 mod sup;
 mod trace;
 
